@@ -165,8 +165,20 @@ def run_case(case, ctx):
             train[c] = train[c].astype(float)
             test[c] = test[c].astype(float)
         ctx.cls("numeric-dtype-categories")
+    bigids = bool(intcat and explicit and not numeric_cat and ncat >= 2 and case["sub"] % 2 == 0)
+    if bigids:
+        # 64-bit identifiers next to a float-typed categorical column: the first column holds integers above 2**53
+        # (no hole, dtype int64), the second is float because of its holes - a common dtype for both would round the ids
+        c0, c1 = cat_cols_all[0], cat_cols_all[1]
+        base = 2 ** 53 + 1
+        for fr in (train, test):
+            v0 = [base + 2 * int(pools[c0].index(v)) if not _missing(v) else base for v in fr[c0].tolist()]
+            fr[c0] = numpy.array(v0, dtype=numpy.int64)
+            fr[c1] = fr[c1].astype(float)
+        pools[c0] = [base + 2 * j for j in range(len(pools[c0]))]
+        ctx.cls("int64-ids-above-2**53")
     ctx.cls("missing=" + misskind)
-    cfg = {"missing_as": misskind, "numeric_dtype_categories": numeric_cat,
+    cfg = {"missing_as": misskind, "numeric_dtype_categories": numeric_cat, "int64_ids": bigids,
            "ncat": ncat, "nnum": nnum, "rows": nrow, "index": ikind, "single": single, "explicit_columns": explicit,
            "cat_cols": cat_cols, "remove": remove, "int_categories": intcat, "sub": case["sub"]}
     ctx.cls("index=" + ikind)
@@ -218,7 +230,9 @@ def run_case(case, ctx):
             for c in cat_cols:
                 t2 = test.copy(deep=True)
                 col = t2[c].to_numpy(dtype=object, copy=True)
-                col[i] = 999 if intcat else "UNSEEN"
+                # the unseen value is sometimes a falsy one ('' / 0 / False): still a value, still unseen
+                falsy = (i + cat_cols.index(c) + case["sub"]) % 3 == 0
+                col[i] = (0 if falsy and 0 not in pools[c] else 999) if intcat else ("" if falsy else "UNSEEN")
                 t2[c] = col
                 exp2, err2 = reference(train, t2, cat_cols, remove, single, skip)
                 try:
